@@ -225,10 +225,20 @@ def _e1_part(prop, tier, quick_n, thorough_n, per_job=2, budget_quick=330, budge
             "budget_s": budget_quick if tier == "quick" else budget_thorough}
 
 
+def _leaf_sweep_part(prop, tier):
+    def jobs(seed):
+        from . import apisim
+
+        n = len(apisim.leaf_sweep_plans(seed, prop))
+        return [{"prop": prop, "seed": seed, "start": k, "count": 1, "leaf_sweep": True, "tier": tier} for k in range(n)]
+
+    return {"engine": "E1", "jobs": jobs, "wall_cap": 600.0, "init": "sim.apisim:worker_init", "budget_s": 400}
+
+
 def spec_c13(tier):
     return {
         "level": "exploration",
-        "parts": [_e1_part("C13", tier, 220, 4000)],
+        "parts": [_leaf_sweep_part("C13", tier), _e1_part("C13", tier, 200, 4000)],
         "coverage": _generic_coverage(E1_RULE + "  Oracle: after every find-like op the fingerprint (field, height, all "
                                       "temperatures, search log; floats at 1e-9, everything else exact) equals fresh(cfg); after "
                                       "every simulate/size the result equals the same call on a fresh GHE object for that field; "
